@@ -776,8 +776,10 @@ Definition spec_ok (c : case) (o : obs) : bool :=
 Definition special_dec (v : val) : bool :=
   match v with VDec (DFin _ _ _) => false | VDec _ => true | _ => false end.
 
-(* python values the model covers *)
-Definition wf (c : case) : bool := match c with CPy VOther => false | _ => true end.
+(* the case kinds the MODEL covers: lexical forms, python values other than the placeholder, pairs.
+   CConf cases carry only a law number and a region computed by harness/c09.py: they are differential tests of
+   rdflib against the oracle written in the harness, nothing about them is modelled here *)
+Definition wf (c : case) : bool := match c with CPy VOther => false | CConf _ _ => false | _ => true end.
 
 Definition kf (c : case) : N :=
   match c with
